@@ -70,3 +70,11 @@ chk('C19', 'enumerated key-vector / table / criteria grids + Hypothesis vs linea
     'MATCH in all modes on sorted number/text/logical vectors (keys below/at/between/above/other type, other letter case, wildcards) and exact mode on every short mixed vector with duplicates/blanks/errors; INDEX on all shapes up to 6x6 with indexes in/at/beyond bounds; LOOKUP/VLOOKUP/HLOOKUP compared with own reference and with the repo\'s INDEX(..,MATCH(..)); COUNTIF/SUMIF/AVERAGEIF for 72 criteria x ranges of every kind against per-element matching.',
     'Approximate modes on unsorted/duplicated keys, blank/error lookup values and criteria, ~~ escapes and numeric-looking text inside ranges are not asserted.',
     'DESIGN.md 2/C19')
+chk('C07', 'model-based operation histories (Hypothesis, shrunk as one value) against an independent evaluator and a fresh model',
+    'Histories of 2-8 operations (calculate with overrides on constant/formula cells, names, ranges and output subsets; compile+call; to_dict; write; deepcopy-and-continue; finish again); after every calculate the result must equal the independent evaluation with the overridden cells as constants, the same call on a fresh model, and the unrestricted run on every returned node.',
+    'Trusts xlref.wb on the restricted grammar; multi-cell overrides consist of populated non-array cells without blank elements.',
+    'DESIGN.md 2/C07')
+chk('C17', 'model-based histories over original / deepcopy / dill copies, compared with fresh objects; compiled functions copied and called interleaved',
+    'Up to three live objects (original, deepcopy, dill round trip) of one model receive interleaved calculate-with-overrides / compile+call (the compiled function is itself copied) / finish / to_dict / write; every observed result must equal the independent evaluation and a fresh model. Formula-level compiled functions are copied and called interleaved with different arguments; circular models are copied and compared with fresh ones.',
+    'A copy carries no cells/books (the repo drops them on pickling): re-finishing a copy is only required not to disturb the others. Shared-memo base conversions are covered by C20 (interleaved part).',
+    'DESIGN.md 2/C17')
